@@ -141,9 +141,16 @@ class _Life:
         lpin.open = self.open
         self.emit({"k": "start", "force": bool(p["force"])})
         self.crash.at("started")
-        from ledger.pin import FileBasedPin, PinError
+        from ledger.pin import PinError
+        import types
+        # the PIN is loaded the way the manager's entry point for this platform loads it
+        if plat == "sgx":
+            import manager_sgx as entry
+        else:
+            import manager_ledger as entry
+        os.environ["PIN"] = DEFAULT_PIN.decode()
         try:
-            pin = FileBasedPin(p["pin_path"], default_pin=DEFAULT_PIN, force_change=p["force"])
+            pin = entry.load_pin(types.SimpleNamespace(pin_file=p["pin_path"], force_pin_change=p["force"]))
         except PinError:
             self.emit({"k": "load", "ok": "f"})
             self.emit({"k": "end", "outcome": "stop"})     # no PIN object: no PIN in use
@@ -225,6 +232,7 @@ def preload():
     env.setup()
     install(World(SimDevice()))
     import ledger.pin, ledger.protocol, ledger.hsm2dongle, sgx.hsm2dongle, comm.platform  # noqa
+    import manager_ledger, manager_sgx  # noqa
 
 
 def run_lifetime(plan):
